@@ -74,6 +74,7 @@ fn main() {
         "C07" => p_model::run_c07(&mut ctx, from, to),
         "C19lib" => p_model::run_c19lib(&mut ctx, from, to),
         "C08h" => p_history::run_c08(&mut ctx, from, to),
+        "C05p" => p_history::run_c05p(&mut ctx, from, to),
         "C15" => p_filters::run_c15(&mut ctx, from, to),
         "C16n" => p_filters::run_c16n(&mut ctx, from, to),
         "C16s" => p_filters::run_c16s(&mut ctx, from, to),
